@@ -118,7 +118,7 @@ def model_view(m, n):
         v["size"] = a["size"]
         v["contents"] = bytes(a["contents"])
         v["blocks"] = sorted(m.kids(n.label, "blocks"))
-        v["se"] = [(k, se_model_view(a["se"][k])) for k in sorted(a["se"])]
+        v["se"] = [(k, se_model_view(a["se"][k][0])) for k in sorted(a["se"])]
     elif n.kind in ("cb", "db"):
         v["offset"] = a["offset"]
         v["size"] = a["size"]
